@@ -376,11 +376,22 @@ def rule_comment(ctx):
         for a in alts:
             if a.op == "call" and call_name(a) == "re.compile":
                 pat = a.a[1][0]
-                if pat.op == "call" and call_name(pat) == ".format" and pat.a[1][0].op == "const" and str(pat.a[1][0].a[0]).startswith("^") and pat.a[1][1].op == "param" and pat.a[1][1].a[0] == "comment":
-                    anchored = True
+                # the pattern is [^] + comment: `.match` anchors at the start of the line by itself, `.search` needs the ^
+                pre = None
+                if pat.op == "param" and pat.a[0] == "comment":
+                    pre = ""
+                if pat.op == "call" and call_name(pat) == ".format" and pat.a[1][0].op == "const" and str(pat.a[1][0].a[0]) in ("^{}", "{}", "^{0}", "{0}") and len(pat.a[1]) == 2 and pat.a[1][1].op == "param" and pat.a[1][1].a[0] == "comment":
+                    pre = "^" if str(pat.a[1][0].a[0]).startswith("^") else ""
                 if pat.op == "fstr" and len(pat.a) == 2 and tm.is_const(pat.a[0], "^") and pat.a[1].op == "param" and pat.a[1].a[0] == "comment":
-                    anchored = True  # "^{}".format(comment) / f"^{comment}"
-                if pat.op == "bin" and pat.a[0] == "+" and any(tm.is_const(z, "^") for z in (pat.a[1], pat.a[2])):
+                    pre = "^"  # "^{}".format(comment) / f"^{comment}"
+                if pat.op == "fstr" and len(pat.a) == 1 and pat.a[0].op == "param" and pat.a[0].a[0] == "comment":
+                    pre = ""
+                if pat.op == "bin" and pat.a[0] == "+" and tm.is_const(pat.a[1], "^") and pat.a[2].op == "param" and pat.a[2].a[0] == "comment":
+                    pre = "^"
+                if pat.op == "bin" and pat.a[0] == "%" and pat.a[1].op == "const" and pat.a[1].a[0] in ("^%s", "%s") and pat.a[2].op in ("param", "tuple") and tm.params_of(pat.a[2]) == {"comment"}:
+                    pre = "^" if pat.a[1].a[0].startswith("^") else ""
+                # (`.search` is not the same test even with the ^: in '^a|b' the anchor binds to the first alternative only)
+                if pre is not None and x.method in ("match", "fullmatch"):
                     anchored = True
         on_line = len(x.args) == 1 and x.args[0].op in ("iter", "sub")
         guard = any(c.op == "cmp" and c.a[0] in ("is", "isnot") and "comment" in tm.params_of(c) for c, p in symeval.pc_conds(x.pc)) or True
